@@ -2,7 +2,7 @@
    configuration-independent invariants (Frame.v) and the phase invariant
    (Phase.v); table lemmas over gen/NegTables.v. *)
 From Coq Require Import ZifyBool ZifyNat ZifyN.
-From XV Require Import lib.Bytes gen.NegTables gen.C02Restart C02.Model C02.Frame C02.Phase C02.Adv.
+From XV Require Import lib.Bytes gen.NegTables gen.C02Restart C02.Model C02.Frame C02.Phase C02.Adv C02.Inter.
 
 (* ------------------------------------------------------------------ tables *)
 
@@ -23,9 +23,9 @@ Proof. vm_compute. auto. Qed.
 
 (* STARTTLS, SASL and resource binding as declared form an admitted configuration,
    in any order and with any handshake oracle and domain *)
-Lemma builtin_features_admitted hs dom :
-  c02_config (mkCfg [starttls_feature; sasl_feature; bind_feature] hs dom) = true /\
-  c02_config (mkCfg [bind_feature; sasl_feature; starttls_feature] hs dom) = true /\
+Lemma builtin_features_admitted hs dom loc orig :
+  c02_config (mkCfg [starttls_feature; sasl_feature; bind_feature] hs dom loc orig) = true /\
+  c02_config (mkCfg [bind_feature; sasl_feature; starttls_feature] hs dom loc orig) = true /\
   gated starttls_feature = true /\ gated sasl_feature = true /\ gated bind_feature = true.
 Proof. vm_compute. auto. Qed.
 
@@ -37,8 +37,15 @@ Definition clears (x : bytes) : bool :=
 
 Lemma restart_block_as_modelled :
   clears (str "features") = true /\ clears (str "negotiated") = true /\
-  restart_renews_decoder = true /\ restart_renews_encoder = true.
-Proof. vm_compute. auto. Qed.
+  restart_renews_decoder = true /\ restart_renews_encoder = true /\
+  mem (str "s.in.Info") restart_resets_info = true /\ mem (str "s.out.Info") restart_resets_info = true.
+Proof. vm_compute. repeat split; reflexivity. Qed.
+
+(* starttls.go: the Negotiate closure of StartTLS assigns to none of the
+   variables it captures (the model threads the captured state [m_fv] through
+   sessions and no primitive step writes it) *)
+Lemma starttls_closure_writes_nothing : starttls_negotiate_writes = [].
+Proof. vm_compute. reflexivity. Qed.
 
 (* ------------------------------------------------------------------ clear-text wire *)
 
@@ -70,10 +77,10 @@ Proof.
   intros Hc Hb r Hok. destruct (run_final c Hc bits Hb tee fv clear tls outs choices) as (p & Ha & Hbits & Hph & Hcl).
   fold r in Ha, Hbits, Hph, Hcl. destruct (Hcl Hok) as (Hp & Hhs). subst p.
   destruct (aut_facts bits _ _ Ha) as (Hsw & _ & Hh & _ & _ & Hlen). cbn [phase_ok sw hsk] in Hph, Hsw, Hh, Hlen.
-  destruct Hph as (Hsec & Htls). unfold trace. rewrite Hbits. repeat split; auto.
+  destruct Hph as (Hsec & Htls & Hhsf). unfold trace. rewrite Hbits. repeat split; auto.
   - (* the loop only stops with ROk when the Ready bit is set *)
     clear - Hok Hbits. unfold r, run in *.
-    set (F := fuel_for clear tls) in *. set (m0 := init_state fv bits clear tls outs choices) in *.
+    set (F := fuel_for clear tls) in *. set (m0 := init_state c fv bits clear tls outs choices) in *.
     assert (forall fuel tee m data istee,
                r_class (session_loop fuel tee c m data istee) = ROk ->
                has (m_bits (r_state (session_loop fuel tee c m data istee))) st_Ready = true) as Hgen.
@@ -147,4 +154,53 @@ Lemma established_features_from_tls tee c fv bits clear tls outs choices :
 Proof.
   intros Hc Hb r Hok. destruct (ready_implies_tls tee c fv bits clear tls outs choices Hc Hb Hok) as (Hsw & _).
   exact (proj2 (run_adv tee c fv bits clear tls outs choices Hsw)).
+Qed.
+
+(* ------------------------------------------------------------------ Session.In() on the protected stream *)
+
+Lemma info_from_protected_stream_only tee c fv bits clear tls outs choices :
+  let r := run tee c fv bits clear tls outs choices in
+  switched (trace r) = true -> m_hs (r_state r) = false ->
+  info_from (headers_of (ins_of (after_switch (trace r)))) (m_info (r_state r)) /\
+  info_from (headers_of tls) (m_info (r_state r)).
+Proof. exact (run_info tee c fv bits clear tls outs choices). Qed.
+
+Lemma established_info_from_tls tee c fv bits clear tls outs choices :
+  c02_config c = true -> c02_bits bits = true ->
+  let r := run tee c fv bits clear tls outs choices in
+  r_class r = ROk ->
+  info_from (headers_of tls) (m_info (r_state r)) /\
+  n_from (m_info (r_state r)) = c_loc c /\ n_to (m_info (r_state r)) = c_orig c.
+Proof.
+  intros Hc Hb r Hok.
+  destruct (run_final c Hc bits Hb tee fv clear tls outs choices) as (p & Ha & _ & Hph & Hcl). fold r in Ha, Hph, Hcl.
+  destruct (Hcl Hok) as (Hp & _). subst p. cbn [phase_ok] in Hph. destruct Hph as (_ & _ & Hhs).
+  destruct (aut_facts bits _ _ Ha) as (Hsw & _). cbn [sw] in Hsw.
+  split; [exact (proj2 (run_info tee c fv bits clear tls outs choices Hsw Hhs))|].
+  destruct (run_endinv tee c fv bits clear tls outs choices) as (_ & Haddr). exact (Haddr Hok).
+Qed.
+
+(* ------------------------------------------------------------------ overlapping sessions *)
+
+Lemma servername_under_interleaving sched ss :
+  let out := sched_run sched None (map (start_sess None) ss) in
+  fst out = None /\
+  Forall2 (fun s0 s =>
+             Forall (fun n => n = c_domain (s_cfg s0)) (server_names (m_tr (pstate (is_prog s)))) /\
+             (forall r, is_prog s = Done r -> r = run_sess None s0))
+          ss (snd out).
+Proof. exact (interleaved_sessions sched None ss). Qed.
+
+Lemma interleaving_changes_nothing sched fv ss :
+  let out := sched_run sched fv (map (start_sess fv) ss) in
+  fst out = fv /\
+  Forall2 (fun s0 s =>
+             Forall (fun n => n = name_for (s_cfg s0) fv) (server_names (m_tr (pstate (is_prog s)))) /\
+             (forall r, is_prog s = Done r -> r = run_sess fv s0))
+          ss (snd out).
+Proof. exact (interleaved_sessions sched fv ss). Qed.
+
+Lemma no_step_writes_captured c m m' : evolves c m m' -> m_fv m' = m_fv m.
+Proof.
+  intro H. induction H as [|m1 m2 m3 H12 IH Hp]; [reflexivity|]. rewrite <- IH. destruct Hp; reflexivity.
 Qed.
